@@ -747,6 +747,27 @@ def run_property(prop, tier, seed, jobs_n):
                      search_only=True)
         else:
             r.update(status='undecided', reason='loop contracts do not apply to this tree (%s); bounded search (unwind %s) found no failure' % ((why or '')[:200], ob.get('search_unwind', 6)))
+    # an obligation that fails ONLY by unwinding assertions has met a loop/recursion its bound was not written for (the code
+    # gained a loop): that is not yet a verdict. The bounded search decides: a failing user-level check there is a violation
+    # (replayed natively where the unit allows), nothing found is undecided.
+    for r in results:
+        fp = r.get('failed_props') or []
+        if r.get('status') != 'failed' or r.get('search_only') or not fp:
+            continue
+        if not all('unwinding assertion' in p['desc'] or 'recursion unwinding' in p['desc'] for p in fp):
+            continue
+        u = ctx.units[r['unit']]
+        ob = [o for o in u['obligations'] if o['id'] == r['ob']][0]
+        if ob.get('kind'):
+            continue
+        sr = run_obligation(ctx, u, ob, r['config'], tier, False, True, False, True)
+        user_fail = [p for p in (sr.get('failed_props') or []) if USER_PROP_RE.search(p['name']) and 'unwinding' not in p['desc']]
+        if sr.get('status') == 'failed' and user_fail:
+            r.update(failed_props=sr.get('failed_props'), trace_inputs=sr.get('trace_inputs'), cbmc_tail=sr.get('cbmc_tail'),
+                     search={'unwind': ob.get('search_unwind', 6), 'failed_checks': sr.get('failed_props'), 'reason': 'unwinding bound exceeded on this tree'},
+                     search_done=True)
+        else:
+            r.update(status='undecided', reason='unwinding bound %s exceeded (the code has a loop or recursion this obligation was not written for) and the bounded search found no failing check' % ob.get('unwind', 8))
     known = load_known()
     violations = []
     known_hits = []
@@ -805,7 +826,7 @@ def run_property(prop, tier, seed, jobs_n):
         ob = [o for o in u['obligations'] if o['id'] == r['ob']][0]
         native = None
         reproduced = False
-        if (u.get('loops') or u.get('loops_by_config')) and not ob.get('no_loop_contracts') and ob.get('mode') != 'dfcc' and not r.get('search_only'):
+        if (u.get('loops') or u.get('loops_by_config')) and not ob.get('no_loop_contracts') and ob.get('mode') != 'dfcc' and not r.get('search_only') and not r.get('search_done'):
             # a loop-contract counterexample may start from an unreachable havocked state: look for a reachable one
             # with the same harness, loops unwound a few times instead of abstracted (bounded counterexample search)
             sr = run_obligation(ctx, u, ob, r['config'], tier, False, True, False, True)
